@@ -41,6 +41,7 @@ inductive KvVariant
   | recheckMem  -- look again in mutable/immutable under the lock
   | recheckFull -- look again in memory and retry the whole lookup when a flush completed meanwhile
   | recheckLocked -- look again in memory AND in the current snapshot, all under the write lock
+  | recheckLockedCached -- … but read the bucket through the LRU bucket cache (not lindb's; see KStepStale)
   deriving DecidableEq, Repr
 
 structure KvStore where
@@ -164,6 +165,14 @@ def kstep (v : KvVariant) (s : KvStore) (ctr : Nat) (t : KThread) : KvStore × N
       | none => if s.flushSeq = q then create else (s, ctr, { t with pc := .start })
     | .recheckLocked =>
       -- Flush's tail needs the write lock too: mutable, immutable and snapshot are one consistent view
+      match s.lookupMem t.bucket t.name with
+      | some i => (s, ctr, { t with pc := .done i })
+      | none =>
+        match s.lookupPersisted t.bucket t.name with
+        | some i => (s, ctr, { t with pc := .done i })
+        | none => create
+    | .recheckLockedCached =>
+      -- with a coherent cache this is `recheckLocked`; what a stale cache does to it is `KStepStale`
       match s.lookupMem t.bucket t.name with
       | some i => (s, ctr, { t with pc := .done i })
       | none =>
@@ -566,6 +575,8 @@ structure Cfg where
   prepareSwapsEmpty : Bool := false
   /-- `getOrCreateValue` looks into the memory maps before the persisted bucket -/
   kvMemFirst : Bool := true
+  /-- repair: the lock-free lookup adds a bucket to the LRU cache only while its snapshot is still current -/
+  kvCacheAddGuarded : Bool := false
   /-- the schema lookup of the create path (`getSchemaLocked`) consults the LRU cache (lindb's does not) -/
   schemaLockedUsesCache : Bool := false
   deriving DecidableEq, Repr
@@ -701,6 +712,27 @@ no failure). -/
 def metaFlushFailAt (nd : Node) : Nat :=
   if nd.ns.needFlush then 1 else if nd.metric.needFlush then 2 else if nd.tagValue.needFlush then 4 else 5
 
+/-- three-party witness for the LRU bucket cache of the metric dictionary. The bucket (namespace id) is
+persisted; name `x` is frozen by PrepareFlush; a lookup of an unknown name has taken the old snapshot and
+is stopped before `bucketCache.Add`; the metadata flush persists `x`, installs the new snapshot and purges
+the cache; the lookup continues and caches the bucket of the OLD snapshot (answer: not found). Then, with
+no concurrency left, `GenMetricID(ns, x)`: the lock-free lookup misses through the stale bucket; lindb's
+createValue reads `s.snapshot` under the lock and finds `x`; a createValue that trusts the cache creates
+a second id. Returns the node and the answer for `x`. -/
+def bucketCacheRace (c : Cfg) (nd : Node) (nb nsName x : Nat) : Node × GenOut :=
+  let nd1 := nd.metaFlush
+  match c.kv with
+  | .recheckLockedCached =>
+    match nd1.ns.lookup nb nsName with
+    | none => (nd1, .stuck)
+    | some nsID =>
+      match nd1.metric.lookupMem nsID x with
+      | some i => (nd1, .id i)
+      | none =>
+        let i := nd1.seqMem.metric
+        (afterAlloc c { nd1 with metric := nd1.metric.insert nsID x i, seqMem := { nd1.seqMem with metric := i + 1 } }, .id i)
+  | _ => nd1.genMetric c nb nsName x
+
 /-- witness schedule reader ‖ writer ‖ flush on a schema that is persisted and not in memory:
 a reader's `GetSchema(m)` has read the kv family and is stopped before `cache.Add`; a writer creates
 field `fb`; PrepareFlush + Flush (commit, purge of the cache); the reader adds its — now stale — object
@@ -781,6 +813,26 @@ def indexFlushPrefix (nd : Node) (shard k : Nat) : Node :=
   nd.setShard shard ((List.range k).foldl Shard.flushStep (nd.shards shard))
 
 def indexFlush (nd : Node) (shard : Nat) : Node := nd.indexFlushPrefix shard 4
+
+/-- does step `i` of the index flush commit its kv family (is there something frozen to write)? -/
+def shardCommits (sh : Shard) : Nat → Bool
+  | 0 => match sh.minv.frz with | some (_ :: _) => true | _ => false
+  | 1 => match sh.fwd.frz with | some (_ :: _) => true | _ => false
+  | 2 => match sh.inv.frz with | some (_ :: _) => true | _ => false
+  | 3 => sh.series.needFlush
+  | _ => false
+
+/-- the number of steps of the index flush that are complete when its (j+1)-th kv family commit is about
+to be made (4 = the flush makes fewer commits than that and runs to its end) -/
+def stepsBeforeCommit (sh : Shard) (j : Nat) : Nat :=
+  let rec go (i fuel j : Nat) : Nat :=
+    match fuel with
+    | 0 => 4
+    | fuel + 1 =>
+      if i ≥ 4 then 4
+      else if shardCommits sh i then (if j = 0 then i else go (i + 1) fuel (j - 1))
+      else go (i + 1) fuel j
+  go 0 5 j
 
 /-- an index flush whose series dictionary flush (the last step) fails at its kv family commit -/
 def indexFlushFailAt (nd : Node) (shard : Nat) : Nat := if (nd.shards shard).series.needFlush then 3 else 4
